@@ -292,6 +292,11 @@ def _run(ctx, case, net):
                             pump_until(nn, wn.t + 250 * W.MS)
                             wait_quiet(nn)
                     r["cc_after_release"] = net.call(nn, "check_connection", o.check_connection, deadline_ms=3000)
+                    if case.get("dup"):
+                        # while it looks for a contact again, the node hears ANOTHER unassigned node's
+                        # poll (thorough run #8 met this with several nodes joining at once)
+                        net.world.at(wn.t + 15 * W.MS, nn.radio.inject_rx, 0, net_ref.pack_header(0o4444, 0o100, 0x7778, 194, 0))
+                        ctx.count("foreign_polls_heard_while_unassigned")
                     r["rejoin"] = net.call(nn, "renew_address", o.renew_address, T, deadline_ms=(T + 2.5) * 1000)
                     if r["rejoin"] is not None and not has_kids:
                         # the master expires the lease (its public release_address(address)): the
